@@ -104,9 +104,26 @@ impl ChangeGraph {
         // Then, traverse the graph starting from the root's dependents.
         let mut object =
             T::init(&root.value, store).map_err(|e| EvaluateError::Init(Box::new(e)))?;
-        let children = Vec::from_iter(root.dependents.iter().cloned());
         let manifest = root.manifest.clone();
         let root = root.id;
+
+        // Changes that do not descend from the root are not part of the object: they would
+        // never be visited below, so neither their signatures nor their contents would be
+        // checked. Drop them, together with the changes that depend on them.
+        let detached = Vec::from_iter(
+            self.graph
+                .roots()
+                .map(|(id, _)| *id)
+                .filter(|id| *id != root),
+        );
+        for id in detached {
+            self.graph.remove(&id);
+        }
+        let children = self
+            .graph
+            .get(&root)
+            .map(|root| Vec::from_iter(root.dependents.iter().cloned()))
+            .unwrap_or_default();
 
         self.graph.prune_by(
             &children,
